@@ -24,7 +24,7 @@ from .. import readerworld as W
 from .. import rng as R
 from .. import wire
 from ..runner import REPO, HarnessError, d64, digest_of, violation
-from ..sched import Scheduler, SchedulerError
+from ..sched import DeadlockDetected, Scheduler, SchedulerError, install_lock_seam
 
 PROP = "C13"
 RUNS = {"quick": 1600, "thorough": 120000}
@@ -503,6 +503,7 @@ def _first_diff(a, b):
 
 def _run_scenario(scn):
     """runs in a pristine child"""
+    install_lock_seam()  # locks the library creates from now on yield the baton instead of blocking
     threads = scn["threads"]
     names = tables_snapshot()
     t0 = tables_items(names)
@@ -521,7 +522,10 @@ def _run_scenario(scn):
             sch = scn["sched"]
             srng = R.random.Random(sch["seed"])
             sc = Scheduler(prefix, rng=srng, p=sch["p"], p_boost=sch["p_boost"], change_points=sch.get("change_points"), slices=sch.get("slices", 0))
-        results = sc.run(bodies)
+        try:
+            results = sc.run(bodies)
+        except DeadlockDetected as e:
+            return {"results": [], "switches": sc.taken, "sites": set(), "pairs": set(), "steps": sc.step, "changed": [], "deadlock": str(e)[:200]}
         switches = sc.taken
         sites = set(sc.switch_sites)
         pairs = {a + "|" + b for a, b in sc.overlap_pairs}
@@ -534,6 +538,7 @@ def _run_scenario(scn):
 def _count_steps(scn):
     """dry run without switches, in a pristine child: number of line events"""
     prefix = os.path.join(os.path.realpath(os.path.join(REPO, "src", "pyrtcm")), "")
+    install_lock_seam()
     dry = Scheduler(prefix, script=[])
     dry.run([(lambda ops=th: [run_op(op) for op in ops]) for th in scn["threads"]])
     return dry.step
@@ -569,6 +574,8 @@ def execute(scn):
         raise
     results = out["results"]
     switches = out["switches"]
+    if out.get("deadlock"):
+        viol = violation(PROP, "deadlock", f"every worker thread is blocked on a lock held by another one: {out['deadlock']}")
     for t, (th, res) in enumerate(zip(threads, results)):
         for i, (op, got) in enumerate(zip(th, res)):
             want = expect[repr(op)]
